@@ -20,6 +20,30 @@ from pfdl_scheduler.api.observer_api import Observer, NotificationType  # noqa: 
 
 KINDS = ("ts", "ss", "sf", "tf")
 
+# creation order of the places of every net (the harness's own wrapper around the module-level helper of the
+# generator; nothing in /repo is changed): kept on the net object itself
+
+
+def _wrap_create_place():
+    import pfdl_scheduler.petri_net.generator as gen
+    if getattr(gen.create_place, "_verif_wrapped", False):
+        return
+    orig = gen.create_place
+
+    def create_place(name, net, node):
+        uid = orig(name, net, node)
+        try:
+            net._verif_created.append(uid)
+        except AttributeError:
+            net._verif_created = [uid]
+        return uid
+
+    create_place._verif_wrapped = True
+    gen.create_place = create_place
+
+
+_wrap_create_place()
+
 
 # ---------------------------------------------------------------------------------------------
 # values
@@ -171,8 +195,14 @@ class Run:
         self.valid = bool(self.s and self.s.pfdl_file_valid)
         self.var_gen = 0
         self.stale_var = []
+        self.pidx = {}
+        self.net0 = None
         if self.s is not None:
             self.s.register_variable_access_function(self.access_function(0))
+            try:
+                self.net0 = self.net_structure()
+            except Exception as ex:  # noqa: BLE001
+                self.net0 = {"error": type(ex).__name__ + ": " + str(ex)[:200]}
 
     # recording ---------------------------------------------------------------------------
     def ev(self, e):
@@ -303,9 +333,63 @@ class Run:
                 fin = s.petri_net_generator.task_finished_uuid
                 snap["marked"] = sum(len(m[p]) for p in m)
                 snap["final_marking"] = bool(len(m) == 1 and fin in m and len(m[fin]) == 1)
+                # the marking by creation index of the places (net layer of the model)
+                idx = self.place_index()
+                snap["marking"] = sorted([idx[p], len(m[p])] for p in m if p in idx)
             except Exception as ex:  # noqa: BLE001
                 snap["marking_exc"] = type(ex).__name__
         return snap
+
+    # the net as a structure ---------------------------------------------------------------
+    def place_index(self):
+        """place name -> creation index; places keep their index when they are removed from the net (also those
+        created and removed within one call: every create_place of this net is recorded)"""
+        net = self.s.petri_net_logic.petri_net
+        for name in getattr(net, "_verif_created", []):
+            if name not in self.pidx:
+                self.pidx[name] = len(self.pidx)
+        for name in net._place:
+            if name not in self.pidx:
+                self.pidx[name] = len(self.pidx)
+        return self.pidx
+
+    def net_structure(self):
+        """places / transitions in creation order with arcs (as place indices) and callbacks"""
+        s = self.s
+        if s is None or s.petri_net_logic is None:
+            return None
+        net = s.petri_net_logic.petri_net
+        idx = self.place_index()
+        tidx = {name: i for i, name in enumerate(net._trans)}
+        m = net.get_marking()
+        places = [[False, 0] for _ in range(len(idx))]
+        for name, i in idx.items():
+            if net.has_place(name):
+                places[i] = [True, len(m[name]) if name in m else 0]
+        tdict = s.petri_net_generator.transition_dict
+        trans = []
+        for name in net._trans:
+            t = net.transition(name)
+            cbs = []
+            for cb in tdict.get(name, []):
+                fn = cb.func.__name__[3:]
+                a = cb.args
+                if fn in ("task_started", "task_finished"):
+                    cbs.append([fn, a[0].task.name, bool(a[0].in_loop)])
+                elif fn in ("service_started", "service_finished"):
+                    cbs.append([fn, a[0].service.name, bool(a[0].in_loop)])
+                elif fn in ("condition_started", "while_loop_started"):
+                    cbs.append([fn, idx.get(a[1], -1), idx.get(a[2], -1)])
+                elif fn == "counting_loop_started":
+                    cbs.append([fn, a[0].context.start.line if a[0].context else -1, idx.get(a[1], -1), idx.get(a[2], -1)])
+                elif fn == "parallel_loop_started":
+                    cbs.append([fn, idx.get(a[3], -1), tidx.get(a[4], -1), tidx.get(a[5], -1)])
+                else:
+                    cbs.append([fn])
+            trans.append({"ins": sorted(idx[p.name] for p, _ in t.input()),
+                          "outs": sorted(idx[p.name] for p, _ in t.output()), "cbs": cbs})
+        return {"places": places, "trans": trans, "start": idx.get(s.petri_net_generator.task_started_uuid, -1),
+                "final": idx.get(s.petri_net_generator.task_finished_uuid, -1)}
 
     def start(self):
         return self._call({"op": "start"}, lambda: self.s.start())
